@@ -87,6 +87,7 @@ def run(ctx):
     member_helpers(ctx, ctx.facts("effects.cpp", "A", ()))
     dynamic_level_byte(ctx, core)
     decode_routing(ctx, core)
+    formats_through_fmt(ctx, core)
 
 
 def matrix_witness():
@@ -475,6 +476,29 @@ def decode_routing(ctx, facts):
            "message is never formatted before the arguments of this record were decoded", fn=dec)
 
 
+def formats_through_fmt(ctx, facts):
+    """R3i: the text of a statement is produced by fmt from the template and the decoded arguments — with the same template
+    processing the call site would apply (escaped braces!) — on every path; nothing but the error handlers puts other text there"""
+    f = facts.need("quill::detail::BackendWorker::_populate_formatted_log_message", "A")[0]
+    g = f.g
+    tpl = f.rec["params"][1]["did"]
+    vf = [c for c in f.calls(r"^fmtquill::(v\d+::)?vformat_to\b")]
+    vp = npos(f, vf)
+    uses_tpl = bool(vf) and all(any(x["k"] == "DeclRefExpr" and x.get("did") == tpl for x in walk(c["args"][1])) for c in vf)
+    uses_store = bool(vf) and all(any(is_this_field(x, "_format_args_store") for x in walk(c)) for c in vf)
+    from rules.common import try_stack, handler_info
+    def in_handler(n):
+        return any(n.get("k") == "CXXCatchStmt" or a["k"] == "CXXCatchStmt" for a in f.ancestors(n))
+    other_text = [c for c in f.calls(r"::(append|push_back|assign|operator\+=|operator=|resize|try_resize)\b")
+                  if any(x["k"] == "MemberExpr" and x.get("mname") == "formatted_msg" for x in walk(call_obj(c) if c["k"] != "CXXOperatorCallExpr" else c["args"][0]))
+                  and not in_handler(c)]
+    ok = bool(vp) and uses_tpl and uses_store and not other_text and not g.exists_path([g.entry_node], [g.exit_node], avoid_nodes=vp)
+    ctx.ob("C04.R3i", "_populate_formatted_log_message:text-comes-from-fmt", ok,
+           "the message is produced by fmtquill::vformat_to from the statement's template and the decoded argument store on every path "
+           "(no shortcut copies the template or anything else into the message outside the error handlers: %d such write(s)) — a "
+           "template without arguments is still a template ('{{' is one brace)" % len(other_text), fn=f)
+
+
 def norm_ty(t):
     t = t.replace("const ", "").replace(" const", "").strip()
     t = re.sub(r"\b(\w+::)+", "", t)
@@ -652,6 +676,25 @@ def order_preserved(ctx, facts):
         ctx.ob("C04.R7b", "%s:appends-in-order" % f.cls.replace("quill::", "")[:120], (bool(app) or by_index) and not front,
                "decoded elements are appended at the back, in the order they were encoded", fn=f)
     ctx.floor("C04.R7b", "sequence-container decoders", m, 5)
+    # R7c: what the backend formats must iterate in the order the elements were encoded (= the caller's iteration order). A container
+    # whose iteration order is not a function of its contents cannot be rebuilt by insertion without losing that order.
+    kinds = {}
+    for f in facts.fns:
+        if f.config != "A" or f.base != "decode_arg" or not f.cls:
+            continue
+        mm = re.match(r"^quill::Codec<std::(unordered_(?:multi)?(?:set|map))<", f.cls)
+        if not mm:
+            continue
+        rname, _ra = split_targs(f.rec.get("cret", ""))
+        kinds.setdefault(mm.group(1), []).append((f, rname))
+    for kind, lst in sorted(kinds.items()):
+        f, rname = lst[0]
+        keeps = all(not rn.split("::")[-1].startswith("unordered_") for (_f, rn) in lst)
+        ctx.ob("C04.R7c", "%s:decoded-in-encoded-order" % kind, keeps,
+               "the elements of a std::%s are encoded in the caller's iteration order, but decode_arg rebuilds a std::%s by insertion: "
+               "the rebuilt table's bucket layout — and so the order in which the backend formats the elements — differs from the "
+               "caller's whenever the caller's table was grown, reserved or rehashed differently (%d instantiation(s) analysed)" %
+               (kind, lst[0][1].split("::")[-1].split("<")[0], len(lst)), fn=f)
 
 
 def hex_escape(ctx, facts):
